@@ -175,6 +175,10 @@ where
         while let Ok((item, remainder)) =
             <T as ZvtSerializerImpl<L, E, TE>>::deserialize_tagged(bytes, tag.clone())
         {
+            // An element which consumes nothing would be found again and again.
+            if remainder.len() == bytes.len() {
+                break;
+            }
             items.push(item);
             bytes = remainder;
         }
